@@ -546,6 +546,102 @@ fn run_product(rep: &mut Report, mode: Mode, tier: Tier) {
         rep.bounds["pumped-families"] = json!({"values": n, "thresholds": "0..=40 and 2^k +- 1 up to 4 097 (quick) / 65 537 (thorough)", "extra_width_limits": [254, 255, 256, 257, 65534, 65535, 65536, 65537]});
         rep.absorb(t);
     }
+    // P2-all: every ordered pair of neighbouring characters (all printable ASCII, two controls,
+    // 2-, 3- and 4-byte characters) at every offset 0..=8 of a filler string, so that the pair
+    // falls in every position of an 8- or 16-byte block and straddles its boundaries; as an array
+    // item and as a key, under width limits that straddle the printed width (a width miscounted
+    // by one changes the layout)
+    {
+        let mut alpha: Vec<char> = (0x20u8..0x7f).map(|b| b as char).collect();
+        alpha.extend(['\u{1}', '\n', '\u{7f}', '\u{e9}', '\u{20ac}', '\u{1f600}']);
+        let n = alpha.len();
+        let offsets: Vec<usize> = if tier == Tier::Quick { vec![0, 3, 6, 7, 8] } else { (0..=9).collect() };
+        let items: Vec<(usize, usize)> = (0..n).flat_map(|a| offsets.iter().map(move |&o| (a, o))).collect();
+        let alpha2 = alpha.clone();
+        let t = explore::par_tally(items, |(a, off), t| {
+            for &y in &alpha2 {
+                let x = alpha2[a];
+                let s: String = format!("{}{x}{y}{}", "m".repeat(off), "w".repeat(7));
+                let rv = RV::Arr(vec![RV::Str(s.clone()), RV::Obj(vec![(s.clone(), RV::Null)])]);
+                let real = bridge::to_value(&rv);
+                let base = Opts::pretty();
+                check_case(mode, &rv, &real, &base, t);
+                for l in limit_candidates(&rv, &base) {
+                    if matches!(l, Some(Limit::Width(_))) {
+                        let mut o = base.clone();
+                        o.array_limit = l;
+                        o.object_limit = l;
+                        check_case(mode, &rv, &real, &o, t);
+                    }
+                }
+            }
+            t.nontrivial(&("P2-all", a, off));
+            t.states += 1;
+            t.outcome("pairs of neighbouring characters");
+        });
+        rep.bounds["P2-all"] = json!({"alphabet": n, "ordered_pairs": n * n, "offsets": offsets, "records": "pretty + every straddling width limit"});
+        rep.absorb(t);
+    }
+    // a destination that fails: printing into a writer that accepts only k bytes (every k below
+    // the length of the output) must report the error, and the next print on the same thread
+    // must be unaffected by whatever the failed one left behind
+    {
+        struct Limited(usize, String);
+        impl std::fmt::Write for Limited {
+            fn write_str(&mut self, s: &str) -> std::fmt::Result {
+                if self.1.len() + s.len() > self.0 {
+                    return Err(std::fmt::Error);
+                }
+                self.1.push_str(s);
+                Ok(())
+            }
+        }
+        let vals: Vec<RV> = vec![
+            RV::Str("json-syntax".into()),
+            RV::Obj(vec![("key \"k\"".into(), RV::Arr(vec![RV::Str("v\n".into()), RV::num("12.5e3"), RV::Null]))]),
+            RV::Arr(vec![RV::Str("\u{1}\u{e9}".repeat(20)), RV::Obj(vec![])]),
+        ];
+        let probe = RV::Arr(vec![RV::Str("x".into()), RV::Obj(vec![("y".into(), RV::num("1"))])]);
+        let probe_real = bridge::to_value(&probe);
+        let mut t = Tally::new();
+        for rv in &vals {
+            let real = bridge::to_value(rv);
+            for (oname, o) in presets() {
+                let ro = bridge::to_options(&o);
+                let full = real.print_with(ro.clone()).to_string();
+                let probe_want = probe_real.print_with(ro.clone()).to_string();
+                for k in 0..full.len() {
+                    t.evals += 1;
+                    let r = explore::guard(|| {
+                        use std::fmt::Write;
+                        let mut w = Limited(k, String::new());
+                        let res = write!(w, "{}", real.print_with(ro.clone()));
+                        let after = probe_real.print_with(ro.clone()).to_string();
+                        let after2 = probe_real.to_string();
+                        (res.is_err(), w.1, after, after2)
+                    });
+                    match r {
+                        Ok((failed, partial, after, after2)) => {
+                            if !failed {
+                                t.violation("", format!("printing {} bytes into a writer that accepts {k} did not report an error", full.len()), case(rv, &o));
+                            }
+                            if !full.starts_with(&partial) {
+                                t.violation("", format!("the bytes written before the failure {partial:?} are not a prefix of the output {full:?}"), case(rv, &o));
+                            }
+                            if after != probe_want || after2 != rp::compact(&probe) {
+                                t.violation("", format!("after a print into a failing writer (limit {k}, preset {oname}) the next print on the thread gives {after:?} / {after2:?}"), case(rv, &o));
+                            }
+                        }
+                        Err(p) => t.violation("", format!("printing into a failing writer panicked: {p}"), case(rv, &o)),
+                    }
+                }
+            }
+            t.nontrivial(&("failing-writer", rv.show()));
+        }
+        t.outcome("failing writer, then a normal print");
+        rep.bounds["failing-writer"] = json!({"values": vals.len(), "records": 3, "limits": "every k below the output length"});
+        rep.absorb(t);
+    }
     // every numeric option field through a dense range: 0..=136, every multiple of 16 with its
     // neighbours up to 1 025 (a padding of n blanks is one more size parameter, and buffers and
     // chunk sizes in a printer need not be powers of two), on records with and without
